@@ -314,7 +314,7 @@ package core
 //@   also-modifies ruleOK, eok, lastProp, lastPropVal, lastGetId, lastGetProp, lastGetVal
 
 //@ func (*Location).EnableRule
-//@   ensures[C10.disable_sets_flag]  result == nil && !enable ==> lastSetId == id && lastSetProp == "disabled" && lastSetVal == box(true)
+//@   ensures[C10.disable_sets_flag]  result == nil && !enable ==> lastSetId == id && lastSetProp == "disabled" && lastSetVal == boxAs(true, bool)
 //@   ensures[C10.enable_clears_flag] result == nil && enable  ==> lastRemId == id && lastRemProp == "disabled"
 
 //@ func (*FindRules).Do
